@@ -38,3 +38,63 @@ Print Assumptions C08_hour_roundtrip.
 Example C08_century_crossing :
   convert_camx_time [99365; 99365; 1] [22; 23; 0] = [(1999365, 220000); (1999365, 230000); (2000001, 0)].
 Proof. vm_compute. reflexivity. Qed.
+
+(* ======================================================================================================
+   CAMx LATERAL BOUNDARY files (Model/Lbdy.v, reader model from the translated lateral_boundary/Memmap.py)
+   ====================================================================================================== *)
+From PNC Require Import Model.Lbdy Proofs.LbdyProofs.
+
+(* read(write(f)): the reader model on the encoding of any well-formed lateral-boundary content presents exactly
+   that content: identical boundary values for every species/edge/step, identical time-header words, grid counts
+   and species order. (The library writer is tied to `lb_enc` by the correspondence: byte equality.) *)
+Theorem C08_lbdy_read_write : forall l, lb_wf l = true -> l_steps l <> [] ->
+  lb_mm_read (lb_enc l) (4 * Z.of_nat (length (lb_enc l))) = Ok (lb_view_of l).
+Proof. exact lb_mm_read_enc. Qed.
+Print Assumptions C08_lbdy_read_write.
+
+(* write(read(write f)) is byte-identical to write f: decoding loses nothing *)
+Theorem C08_lbdy_rewrite_idempotent : forall l, lb_wf l = true ->
+  match lb_dec (lb_enc l) with Some l' => lb_enc l' = lb_enc l | None => False end.
+Proof. exact lb_rewrite_idempotent. Qed.
+Print Assumptions C08_lbdy_rewrite_idempotent.
+
+(* begin time flags: what the reader model builds from the presented time headers equals the specification *)
+Theorem C08_lbdy_begin_flags : forall l bh, Forall (fun t => 0 <= t <= 23) bh -> length bh = length (l_steps l) ->
+  lb_tflag (lb_view_of l) bh = spec_camx_time (map (fun st => nth 0 (fst st) 0) (l_steps l)) bh.
+Proof. exact lb_tflag_spec. Qed.
+Print Assumptions C08_lbdy_begin_flags.
+
+(* end time flags (reader as repaired by fe376a5: ETFLAG from EDATE, ETIME): equal to the specification *)
+Theorem C08_lbdy_end_flags : forall l eh, Forall (fun t => 0 <= t <= 23) eh -> length eh = length (l_steps l) ->
+  lb_etflag (lb_view_of l) eh = spec_camx_time (map (fun st => nth 2 (fst st) 0) (l_steps l)) eh.
+Proof. exact lb_etflag_spec. Qed.
+Print Assumptions C08_lbdy_end_flags.
+
+(* a concrete one-step file 04100 05:00-06:00 (the former witness of the repaired ETFLAG defect) *)
+Definition C08_lbdy_witness : lbdy :=
+  {| l_name := repeat 65 10; l_note := repeat 66 60; l_itzon := 0;
+     l_dates := [4100; hour_word 5; 4100; hour_word 6];
+     l_gpre := repeat 0 7; l_nx := 2; l_ny := 2; l_nz := 1; l_gpost := [0; 0; 0; 0; 0];
+     l_spc := [repeat 80 10]; l_edges := std_edges 2 2;
+     l_steps := [([4100; hour_word 5; 4100; hour_word 6], [Quad [11; 12] [13; 14] [15; 16] [17; 18]])] |}.
+
+(* the writer's own end-date derivation (YYJJJ + 1 at midnight, as Model/Uamiv.v derive_end) loses the content at a
+   year end: re-writing the file read from a step 70365 23:00 - 71001 00:00 gives a file that decodes to a
+   different content. Witness = known finding C08-lb-enddate-year-rollover / C09-lb-enddate-year-rollover (region 1). *)
+Theorem C08_lbdy_year_end_rewrite_refuted :
+  exists l bh, lb_wf l = true /\ lb_dec (lb_enc (lb_derive l bh false)) <> Some l.
+Proof.
+  exists {| l_name := repeat 65 10; l_note := repeat 66 60; l_itzon := 0;
+            l_dates := [70365; hour_word 23; 71001; hour_word 0];
+            l_gpre := repeat 0 7; l_nx := 2; l_ny := 2; l_nz := 1; l_gpost := [0; 0; 0; 0; 0];
+            l_spc := [repeat 80 10]; l_edges := std_edges 2 2;
+            l_steps := [([70365; hour_word 23; 71001; hour_word 0], [Quad [11; 12] [13; 14] [15; 16] [17; 18]])] |}, [23].
+  split; [vm_compute; reflexivity|]. vm_compute. discriminate.
+Qed.
+Print Assumptions C08_lbdy_year_end_rewrite_refuted.
+
+Example C08_lbdy_hyp_inhabited :
+  lb_wf C08_lbdy_witness = true /\ l_steps C08_lbdy_witness <> [] /\
+  lb_dec (lb_enc (lb_derive C08_lbdy_witness [5] true)) = Some C08_lbdy_witness /\
+  lb_etflag (lb_view_of C08_lbdy_witness) [6] = [(2004100, 60000)].
+Proof. vm_compute. repeat split; try reflexivity. discriminate. Qed.
